@@ -82,8 +82,9 @@ def gen_case(tape, tier):
     relative = bool(tape.coin(0.25, "relative-folder"))
     for _ in range(nops):
         o = tape.pick(["dump", "dump", "dump", "get", "get", "to_array", "mask", "mask_linear", "index", "bad_get",
-                       "bad_dump", "persist", "reopen", "worker_dump", "crash"] + (["chdir", "chdir"] if relative else []), "op")
-        if o in ("dump", "worker_dump"):
+                       "bad_dump", "persist", "reopen", "worker_dump", "crash", "dump_while_opened"]
+                      + (["chdir", "chdir"] if relative else []), "op")
+        if o in ("dump", "worker_dump", "dump_while_opened"):
             nv += 1
             ops.append({"op": o, "key": key(ext), "value": nv})
         elif o == "crash":
@@ -126,6 +127,8 @@ def gen_case(tape, tier):
             ops.append({"op": o})
     case = {"backend": backend, "full": full, "mask": mask, "ops": ops, "coarse_mtime": bool(tape.coin(0.5, "coarse-mtime")),
             "relative": relative}
+    if backend == "dict" and tape.coin(0.2, "mapping-with-missing-hook"):
+        case["mapping"] = tape.pick(["defaultdict", "counter"], "mapping")  # the public mapping= argument, with a __missing__ hook
     if backend == "file_array" and tape.coin(0.25, "filename-template"):
         case["template"] = tape.pick(["a_{:d}.pickle", "elem-{:d}.bin", "__{:d}__.pickle.v2"], "template")
     return case
@@ -157,6 +160,10 @@ def simplify(case):
                     c = copy.deepcopy(case)
                     c["ops"][i]["key"][j] = 0
                     yield c
+
+
+def _never_written():
+    return "never-written"
 
 
 def _key(k):
@@ -270,6 +277,10 @@ def _run_case(case, exec_seed=None, exec_tape=None):
             # "the same folder": with a relative path that is the path as seen from the current working directory
             f = os.path.relpath(folder) if case.get("relative") else folder
             kw = {"filename_template": case["template"]} if case.get("template") else {}
+            if case.get("mapping"):
+                import collections
+
+                kw["mapping"] = collections.defaultdict(_never_written) if case["mapping"] == "defaultdict" else collections.Counter()
             return cls(f, m.ext, m.internal or None, m.smask if m.internal else None, **kw)
 
         idx = [0]
@@ -301,12 +312,32 @@ def _run_case(case, exec_seed=None, exec_tape=None):
             arr = arr_box[0]
             o = op["op"]
             try:
-                if o in ("dump", "worker_dump"):
+                if o in ("dump", "worker_dump", "dump_while_opened"):
                     k = _key(op["key"])
                     val = m.value(op["value"])
                     if o == "dump":
                         arr.dump(k, val)
                         m.dump(k, val)
+                    elif o == "dump_while_opened":
+                        # while this dump is under way another thread of the process opens the same folder (a second
+                        # handle: a reader, a resumed run); opening must not disturb the write in flight
+                        kern = state["sim"].kernel
+                        done = [False]
+
+                        def opener():
+                            try:
+                                other = make()
+                                other.mask_linear()
+                            finally:
+                                done[0] = True
+
+                        kern.spawn(opener, f"opener{i}", proc=kern.current.proc)
+                        try:
+                            arr.dump(k, val)
+                        finally:
+                            kern.block_until(lambda: done[0], "join-opener")
+                        m.dump(k, val)
+                        probes["dump_while_opened"] = probes.get("dump_while_opened", 0) + 1
                     else:
                         cp = pickle.loads(pickle.dumps(arr))
                         cp.dump(k, val)
@@ -494,7 +525,7 @@ def _run_case(case, exec_seed=None, exec_tape=None):
             os.chdir(root)
             probes["relative_folder"] = 1
         while idx[0] < len(case["ops"]) and not viol:
-            sim = C.new_sim(tape, root, preempt=0.0)
+            sim = C.new_sim(tape, root, preempt=0.4)  # (only matters while a second thread exists)
             sim.fs.coarse_mtime = bool(case.get("coarse_mtime"))
             sim.fs.mtimes, sim.fs.mtime_now = mt_state["mtimes"], mt_state["now"]
             state["sim"] = sim
